@@ -91,6 +91,28 @@ def long_string_docs(rng):
     return docs
 
 
+def huge_docs(rng, thorough=False):
+    """(w, units): a few very large documents - strings of 70 000 and 1 100 000 units with an escape near the start
+    and near the end (the scratch stream of the un-escaper passes every capacity threshold up to 2^20 and every
+    block-copy threshold), and containers with 5 000 empty members (nesting counters must return to zero)."""
+    out = []
+    for n in (70000, 300000, 1100000) if not thorough else (70000, 140000, 300000, 600000, 1100000, 2200000):
+        w = rng.choice(["1", "2", "4"])
+        body = [97 + (i % 26) for i in range(n)]
+        k = rng.randrange(3, 40)
+        s = body[:k] + [92, 110] + body[k:n - 7] + [92, 117, 48, 48, 101, 57] + body[n - 7:]
+        out.append((w, [91, 34] + s + [34, 44, 123, 34] + s[:n // 2] + [34, 58, 34] + s[k + 2:k + 9] + [34, 125, 93]))
+        out.append((w, [123, 34] + s + [34, 58, 49, 125]))
+    for n in (4097, 5000, 9000):
+        out.append(("1", [91] + [123, 125, 44] * (n - 1) + [123, 125, 93]))                     # [{},{},...]
+        out.append(("1", [91] + [91, 93, 44] * (n - 1) + [91, 93, 93]))                       # [[],[],...]
+        ms = []
+        for i in range(n):
+            ms += [34] + [ord(c) for c in "k%d" % i] + [34, 58] + ([123, 125] if i % 2 else [91, 93]) + [44]
+        out.append(("1", [123] + ms[:-1] + [125]))                                            # {"k0":[],"k1":{},...}
+    return out
+
+
 def gen_docs(ctx, n, escapes=True, maxdepth=4):
     rng = ctx.rng
     docs = []
